@@ -142,7 +142,11 @@ def run(ctx):
                 continue
             fld = [k for k in fstores if k[1] == m.group(1)]
             srcs = [s for k in fld for _, _, s in fstores[k]]
-            if srcs and all(s == ('args.w',) for s in srcs):
+            def mirrored(h, i, s):
+                # a constant written to the descriptor field is written to args.w on the same path (same block)
+                return s and s[0] == 'const' and any(h2 is h and i2.bb is i.bb and cv == s[1] for h2, i2, cv in wstores)
+            trip = [t3 for k in fld for t3 in fstores[k]]
+            if srcs and any(s == ('args.w',) for s in srcs) and all(s == ('args.w',) or mirrored(h, i, s) for h, i, s in trip):
                 r.ok(inst + f': descriptor field {m.group(1)} is a copy of args.w', func=es.name, loc=es.mod.src)
             elif srcs and all(s and s[0] == 'const' for s in srcs) and wconsts == {s[1] for s in srcs}:
                 r.ok(inst + f': field {m.group(1)} and args.w both {sorted(wconsts)}', func=es.name, loc=es.mod.src)
